@@ -248,7 +248,11 @@ class C11(World):
                     cand += [("wtarget", 1.5 * swarm["wrappers"]), ("wexport", 0.7 * swarm["wrappers"])]
             op = ops.choices([k for k, _ in cand], [w for _, w in cand])[0]
             p = args.choice(owned[c])
-            abort = round(args.random(), 4) if args.random() < swarm["p_abort"] else None
+            abort = None
+            if args.random() < swarm["p_abort"]:
+                # half uniform over the call; the rest near its ends (set-up / restore-at-the-end code is where an abort leaves state behind)
+                x = args.random()
+                abort = round(args.random() if x < 0.5 else (0.9 + 0.1 * args.random() if x < 0.8 else 0.1 * args.random()), 4)
             if op == "svc":
                 st = dict(op="svc", p=p, form=args.choices(FORMS, swarm["w_forms"])[0], name=args.choice(names), abort=abort)
             elif op == "clock":
@@ -323,7 +327,11 @@ class C11(World):
             exclude = TIMING_EXCLUDE
             fault("timing_on")
 
+        no_fp = bool(os.environ.get("VERIF_C11_NO_FP"))  # self-test knob: judge behaviour only, without the state fingerprint
+
         def fp():
+            if no_fp:
+                return {}
             f = fingerprint(exclude_paths=exclude)
             return {k: v for k, v in f.items() if not k.endswith(FP_EXCLUDE_SUFFIX)}
 
